@@ -1,5 +1,6 @@
 import MosnVerif.Drive.Util
 import MosnVerif.Model.HealthFlags
+import MosnVerif.Model.HealthRegistry
 import MosnVerif.Model.HealthCheck
 import MosnVerif.Model.HealthLoop
 namespace MosnVerif.Drive.C16
@@ -62,6 +63,119 @@ def fl (init ops sched : String) (impl : List String) : String :=
   | _, _, _, _ => "E E bad-case"
 
 end Flags
+
+
+/-! ## part A': allocation of the shared word
+`pt <a:w,…|-> <addr/ops;addr/ops;…> <schedule digits> => <p<site>|<site>|d,…> h=<word/health,…> p=<digits,…>`
+`ps <a:w,…|-> <addr/ops;…> <label> => h=… p=…` (host objects created by really concurrent goroutines, calls made one thread
+after the other afterwards: the model runs the threads one after the other) -/
+section Alloc
+open MosnVerif.Model.HealthFlags MosnVerif.Model.HealthRegistry
+
+def parsePre (s : String) : Option (List (Nat × Nat)) :=
+  if s == "-" then some [] else
+  (s.splitOn ",").mapM (fun e => match e.splitOn ":" with
+    | [a, w] => match a.toNat?, w.toNat? with
+      | some a, some w => some (a, w)
+      | _, _ => none
+    | _ => none)
+
+def parseSpecs (s : String) : Option (List (Addr × List Op)) :=
+  (s.splitOn ";").mapM (fun t => match t.splitOn "/" with
+    | [a, ops] => match a.toNat?, (if ops == "" then some [] else (ops.splitOn ",").mapM parseOp) with
+      | some a, some l => some (a, l)
+      | _, _ => none
+    | _ => none)
+
+def distinctNat : List Nat → Bool
+  | [] => true
+  | x :: r => !r.contains x && distinctNat r
+
+def threadDone (t : HThread) : Bool := t.ptr.isSome && t.th.ops.isEmpty
+
+/-- model trace in the harness' format and the final world; `none` when the schedule names a finished / unknown thread
+or does not complete -/
+def worldTrace (w : World) : List Nat → Option (List String × World)
+  | [] => if w.done then some ([], w) else none
+  | i :: s =>
+    match w.threads[i]? with
+    | none => none
+    | some t =>
+      if threadDone t then none else
+      let w' := w.step genPP genP i
+      let k := match w'.threads[i]? with
+        | some t' => if threadDone t' then "d" else if t'.ptr.isNone then s!"p{t'.ppc}" else toString t'.th.pc
+        | none => "?"
+      (worldTrace w' s).map (fun r => (k :: r.1, r.2))
+
+def runUntil (stop : HThread → Bool) (i : Nat) : Nat → World → World
+  | 0, w => w
+  | fuel + 1, w =>
+    match w.threads[i]? with
+    | some t => if stop t then w else runUntil stop i fuel (w.step genPP genP i)
+    | none => w
+
+/-- the threads one after the other: first every host object is created, then each makes its calls -/
+def sequentialRun (w : World) : World :=
+  let n := w.threads.length
+  let w1 := (List.range n).foldl (fun w i => runUntil (·.ptr.isSome) i 16 w) w
+  (List.range n).foldl (fun w i => runUntil threadDone i (4 * ((w.threads[i]?.map (·.th.ops.length)).getD 0) + 4) w) w1
+
+def fmtObsH (o : Obs) : String :=
+  "h=" ++ joinWith "," (o.words.map (fun p => s!"{p.1.toNat}/{if p.2 then 1 else 0}"))
+
+def fmtObsP (o : Obs) : String :=
+  "p=" ++ joinWith "," (o.probe.map (fun row =>
+    String.ofList (row.map (fun c => Char.ofNat ('0'.toNat + (if c.1 then 2 else 0) + (if c.2 then 1 else 0))))))
+
+def parseObsA (h p : String) : Option Obs :=
+  match h.splitOn "=", p.splitOn "=" with
+  | ["h", hs], ["p", ps] =>
+    let words := (hs.splitOn ",").mapM (fun o => match o.splitOn "/" with
+      | [w, b] => match w.toNat?, b with
+        | some n, "1" => some (BitVec.ofNat 64 n, true)
+        | some n, "0" => some (BitVec.ofNat 64 n, false)
+        | _, _ => none
+      | _ => none)
+    let probe := (ps.splitOn ",").mapM (fun row => row.toList.mapM (fun c =>
+      if '0' ≤ c ∧ c ≤ '3' then some (decide (c.toNat - '0'.toNat ≥ 2), (c.toNat - '0'.toNat) % 2 == 1) else none))
+    match words, probe with
+    | some w, some pr => some ⟨w, pr⟩
+    | _, _ => none
+  | _, _ => none
+
+def alloc (pre th : String) (sched : Option String) (impl : List String) : String :=
+  let sc : Option (Option (List Nat)) := match sched with
+    | some s => (if s == "-" then some [] else parseSched s).map some
+    | none => some none
+  match parsePre pre, parseSpecs th, sc with
+  | some pr, some specs, some sc =>
+    if !distinctNat (pr.map (·.1)) then "E E bad-case" else
+    let reg : Reg := (pr.map (·.1)).zipIdx
+    let heap : List Word := pr.map (fun e => BitVec.ofNat 64 e.2)
+    let w0 := World.init reg heap specs
+    -- model
+    let m : Option (List String) := match sc with
+      | some s => (worldTrace w0 s).map (fun r => [if r.1.isEmpty then "-" else joinWith "," r.1, fmtObsH r.2.observe, fmtObsP r.2.observe])
+      | none =>
+        let w := sequentialRun w0
+        if w.done then some [fmtObsH w.observe, fmtObsP w.observe] else none
+    let agree := m == some impl
+    -- the property predicate on the implementation's observation (declarative; independent of the step programs)
+    let hp := match sc, impl with
+      | some _, [_, h, p] => some (h, p)
+      | none, [h, p] => some (h, p)
+      | _, _ => none
+    match hp with
+    | some (h, p) =>
+      let holdsB : Bool := match parseObsA h p with
+        | some obs => holds specs (fun a => ((pr.lookup a).map (BitVec.ofNat 64)).getD 0) obs
+        | none => false
+      s!"{if agree then "A" else "D"} {if holdsB then "S" else "V"} {(m.map (joinWith " ")).getD "invalid-schedule"}"
+    | none => "E E bad-case"
+  | _, _, _ => "E E bad-case"
+
+end Alloc
 
 /-! ## part B: `hc|hd <cfgU> <cfgH> <initial word> <results s|f|t …> => <one octal digit per callback: changed*4+isHealthy*2+flagAfter> <un,hc|-> w=<word of the address afterwards>` -/
 section Thresholds
@@ -132,6 +246,8 @@ end Thresholds
 def run (caseToks impl : List String) : String :=
   match caseToks with
   | ["fl", init, ops, sched] => fl init ops sched impl
+  | ["pt", pre, th, sched] => alloc pre th (some sched) impl
+  | ["ps", pre, th, _] => alloc pre th none impl
   | ["hc", u, h, f0, res] => hc "hc" u h f0 res impl
   | ["hd", u, h, f0, res] => hc "hd" u h f0 res impl
   | _ => "E E unknown-kind"
